@@ -139,7 +139,11 @@ func (s *StructType) IsAssignableFrom(other Type, typeTable *TypeLookup) error {
 						msg+"member %s: differing array dimensions %d vs %d",
 						t.Id, s.Id, member.Id, o.Tname.ArrayDim, member.Tname.ArrayDim),
 				})
-			} else if member.Tname.MapDim != o.Tname.MapDim {
+			} else if member.Tname.MapDim != o.Tname.MapDim &&
+				// An untyped map accepts a typed map, and a typed map
+				// accepts a struct with compatible members.
+				typeTable.Get(member.Tname).IsAssignableFrom(
+					typeTable.Get(o.Tname), typeTable) != nil {
 				if o.Tname.MapDim == 0 {
 					errs = append(errs, &IncompatibleTypeError{
 						Message: fmt.Sprintf(
